@@ -183,24 +183,20 @@ func (a *UDPAssociation) ReadLoop() {
 			continue
 		}
 
-		// Update actual client address on first datagram
+		// Only the client that owns the association may use the relay
+		// (RFC 1928 section 7: drop datagrams from any other source IP).
+		// This check must come before the sender is recorded, otherwise a
+		// stranger's first datagram would capture all replies.
+		if !a.isFromClient(clientAddr) {
+			continue
+		}
+
+		// Record the client address on its first datagram (replies go there)
 		a.mu.Lock()
 		if a.ActualClientAddr == nil {
 			a.ActualClientAddr = clientAddr
 		}
 		a.mu.Unlock()
-
-		// Verify client address if expected address was specified
-		a.mu.RLock()
-		expected := a.ExpectedClientAddr
-		a.mu.RUnlock()
-
-		if expected != nil && expected.IP != nil && !expected.IP.IsUnspecified() {
-			if !clientAddr.IP.Equal(expected.IP) {
-				// Ignore datagrams from unexpected addresses
-				continue
-			}
-		}
 
 		// Parse SOCKS5 UDP header
 		header, payload, err := ParseUDPHeader(buf[:n])
@@ -221,6 +217,32 @@ func (a *UDPAssociation) ReadLoop() {
 			handler.RelayUDPDatagram(streamID, destAddr, header.Port, header.AddrType, header.RawAddr, payload)
 		}
 	}
+}
+
+// isFromClient reports whether a datagram source belongs to the client that
+// owns this association. The client is identified by IP address: the address
+// announced in the UDP ASSOCIATE request if there was one, otherwise the peer
+// of the TCP control connection. If neither is known (e.g. the control
+// connection is a WebSocket), the first sender becomes the client and later
+// datagrams from other addresses are dropped.
+func (a *UDPAssociation) isFromClient(addr *net.UDPAddr) bool {
+	a.mu.RLock()
+	expected := a.ExpectedClientAddr
+	actual := a.ActualClientAddr
+	a.mu.RUnlock()
+
+	if expected != nil && expected.IP != nil && !expected.IP.IsUnspecified() {
+		return addr.IP.Equal(expected.IP)
+	}
+	if a.TCPConn != nil {
+		if peer, ok := a.TCPConn.RemoteAddr().(*net.TCPAddr); ok && peer != nil && peer.IP != nil {
+			return addr.IP.Equal(peer.IP)
+		}
+	}
+	if actual != nil {
+		return addr.IP.Equal(actual.IP)
+	}
+	return true
 }
 
 // WriteToClient sends a datagram back to the SOCKS5 client.
